@@ -32,4 +32,93 @@ def readOnlyRefused : List String :=
    "FnFileWriteAt", "FnMkdir", "FnMkdirAll", "FnMkdirTemp", "FnRemove", "FnRemoveAll", "FnTruncate", "FnChown", "FnLchown",
    "FnLink", "FnRename", "FnSymlink"]
 
+/-! ### the supplied read-only failure function (regenerated facts `readOnlyFunc*`, failfs_func.go) -/
+
+/-- FnVFS ids of the primitives that can change the tree of the base (OpenFile is decided by its flag) -/
+def treeChangingFns : List String :=
+  ["FnChmod", "FnChown", "FnChtimes", "FnCreateTemp", "FnLchown", "FnLink", "FnMkdir", "FnMkdirAll", "FnMkdirTemp",
+   "FnRemove", "FnRemoveAll", "FnRename", "FnSymlink", "FnTruncate",
+   "FnFileChmod", "FnFileChown", "FnFileSync", "FnFileTruncate", "FnFileWrite", "FnFileWriteAt"]
+
+/-- `ReadOnlyFunc` as written now: one `switch fn`, refuses every tree-changing id with a non-nil error, admits
+    OpenFile only with flag `O_RDONLY`, and lets the rest through -/
+theorem C12_readOnlyFunc_refuses_all :
+    readOnlyFuncShapeOK = true ∧ readOnlyFuncDefaultNil = true
+    ∧ treeChangingFns.all (readOnlyFuncRefuses.contains ·) = true
+    ∧ readOnlyFuncOpenFile = "if fp.Flag != os.O_RDONLY { return &fs.PathError{Op: fp.Op, Path: fp.Path, Err: avfs.ErrPermDenied} } | return nil"
+    ∧ readOnlyRefused.all (readOnlyFuncRefuses.contains ·) = true := by decide +kernel
+
+/-- every consulted FailFS / FailFile method whose base method can change the tree consults a refused id
+    (tables and id list regenerated from the source) -/
+theorem C12_readOnly_covers_tables :
+    (failfsTable.all fun (n, sh) => !(sh.kind == "consult" && mutatingVFS.contains n) || readOnlyFuncRefuses.contains sh.fn) = true
+    ∧ (failfileTable.all fun (n, sh) => !(sh.kind == "consult" && mutatingFile.contains n) || readOnlyFuncRefuses.contains sh.fn) = true := by
+  decide +kernel
+
+/-- generic, every history (unbounded length): under a failure function that refuses each consulted call whose base
+    method could change the tree, no history of calls through the wrapper changes the tree of the base -/
+theorem C12_readonly_history_unchanged {σ α ρ : Type} (b : Base σ α ρ) (t : List (String × Shape)) (refused : String → ρ)
+    (consult : String → α → Option ρ)
+    (hnf : ∀ m sh, lookup t m = some sh → sh.kind ≠ "forward")
+    (hc : ∀ m sh, lookup t m = some sh → sh.kind = "consult" → ∀ a s,
+            (consult sh.fn a).isSome = true ∨ b.tree (b.call sh.base a s).1 = b.tree s)
+    (h : List (String × α)) (s : σ) :
+    b.tree (h.foldl (fun s (m, a) => (wrapCall b t refused consult m a s).1) s) = b.tree s := by
+  induction h generalizing s with
+  | nil => rfl
+  | cons c cs ih =>
+    obtain ⟨m, a⟩ := c
+    simp only [List.foldl]
+    rw [ih]
+    unfold wrapCall
+    split
+    · rfl
+    · rename_i sh hl
+      by_cases h1 : (sh.kind == "refuse") = true
+      · simp [h1]
+      · by_cases h2 : (sh.kind == "forward") = true
+        · exact absurd (by simpa using h2) (hnf m sh hl)
+        · by_cases h3 : (sh.kind == "consult") = true
+          · simp only [h1, h2, h3, if_true]
+            rcases hc m sh hl (by simpa using h3) a s with hs | ht
+            · cases hcs : consult sh.fn a with
+              | none => simp [hcs] at hs
+              | some e => rfl
+            · cases hcs : consult sh.fn a with
+              | none => exact ht
+              | some e => rfl
+          · simp [h1, h2, h3]
+
+/-- generic, every history: with a failure function that never fails, a history of consult-then-forward calls
+    (base method = the method) through the wrapper is the same history on the base, state and results -/
+theorem C12_transparent_history {σ α ρ : Type} (b : Base σ α ρ) (t : List (String × Shape)) (refused : String → ρ)
+    (h : List (String × α))
+    (hall : ∀ c ∈ h, ∃ sh, lookup t c.1 = some sh ∧ sh.kind = "consult" ∧ sh.base = c.1) (s : σ) :
+    h.foldl (fun (st : σ × List ρ) (c : String × α) =>
+        let r := wrapCall b t refused (fun _ _ => none) c.1 c.2 st.1; (r.1, st.2 ++ [r.2])) (s, [])
+    = h.foldl (fun (st : σ × List ρ) (c : String × α) => let r := b.call c.1 c.2 st.1; (r.1, st.2 ++ [r.2])) (s, []) := by
+  suffices H : ∀ (acc : σ × List ρ),
+      h.foldl (fun (st : σ × List ρ) (c : String × α) =>
+        let r := wrapCall b t refused (fun _ _ => none) c.1 c.2 st.1; (r.1, st.2 ++ [r.2])) acc
+      = h.foldl (fun (st : σ × List ρ) (c : String × α) => let r := b.call c.1 c.2 st.1; (r.1, st.2 ++ [r.2])) acc from H _
+  induction h with
+  | nil => intro acc; rfl
+  | cons c cs ih =>
+    intro acc
+    obtain ⟨sh, hl, hk, hb⟩ := hall c (by simp)
+    simp only [List.foldl]
+    rw [consult_transparent b t refused c.1 sh hl hk hb]
+    exact ih (fun c' hc' => hall c' (by simp [hc'])) _
+
+/-- the hypotheses are met: a two-method table, a base whose `Mkdir` changes the tree and whose `Stat` does not, and a
+    plan that refuses `FnMkdir` -/
+example :
+    let b : Base Nat Unit Nat := { call := fun m _ s => if m == "Mkdir" then (s + 1, 0) else (s, 0), tree := id }
+    let sh (n : String) : Shape := { kind := "consult", base := n, args := [], params := [], errs := [], fn := "Fn" ++ n,
+                                     guard := "", wrapRes := "", nilChk := false }
+    let t := [("Mkdir", sh "Mkdir"), ("Stat", sh "Stat")]
+    let plan : String → Unit → Option Nat := fun f _ => if f == "FnMkdir" then some 13 else none
+    (wrapCall b t (fun _ => 1) plan "Mkdir" () 5 = (5, 13)) ∧ (wrapCall b t (fun _ => 1) plan "Stat" () 5 = (5, 0))
+    ∧ (wrapCall b t (fun _ => 1) (fun _ _ => none) "Mkdir" () 5 = (6, 0)) := by decide
+
 end Avfs.Wrap
